@@ -71,7 +71,7 @@ pub fn check_doc(doc: &str, st: &mut Stats, uri: &Url) {
     *st.classes.entry(doc_class(doc)).or_insert(0) += 1;
     let len = doc.len();
     let dj = jstr(doc);
-    let mut viol = |st: &mut Stats, kind: &str, detail: String| {
+    let viol = |st: &mut Stats, kind: &str, detail: String| {
         if st.violations.len() < 200 {
             st.violations.push(format!("{{\"kind\":{},\"doc\":{},\"detail\":{}}}", jstr(kind), dj, jstr(&detail)));
         }
